@@ -148,6 +148,9 @@ def exact_sequences(rep, tier, tags):
     rep.add_design('MC_SegnoSA', cfg, out, st, 'Structured Append machine (normalise, prepare, single-symbol shortcut, split by estimate / by count, '
                    'version for the longest chunk, per-symbol boost and encoding): invariants C08_Count, C08_Version, C08_EachValid, C08_Headers, '
                    'C08_Reassembly, C07_SeqMode, C05_SeqLevel, C13_SeqTail evaluated with the reference decoder on every returned sequence')
+    if tier == 'thorough':       # no behaviour of the machine gets stuck before an outcome (ENABLED is expensive: the quick constants)
+        out2, st2 = common.run_tlc('MC_SegnoSA', cfg='SegnoSA_progress.cfg', workers=common.NCPU, timeout=6000, xmx='12g')
+        rep.add_design('MC_SegnoSA', 'SegnoSA_progress.cfg', out2, st2, 'SA_Progress: every non-terminal state of the Structured Append machine has a successor')
     seen = {}
     for v in common.parse_vectors(out):
         seen.setdefault(json.dumps([v['msg'], v['q']], sort_keys=True), v)
